@@ -55,7 +55,7 @@ Theorem C03_static_scoping_partial :
     soks dcl (map (pass0 400) body) = true ->
     rewrite body = OK out ->
     ol dcl [] out = ol dcl [] body.
-Proof. exact rewrite_scope. Qed.
+Proof. intros dcl body out. exact (rewrite_scope dcl body out []). Qed.
 Print Assumptions C03_static_scoping_partial.
 
 (* equal scope lists mean equal resolution: whatever names the atoms declare and the occurrences mention *)
@@ -64,15 +64,25 @@ Theorem C03_same_resolution_partial :
     soks dcl (map (pass0 400) body) = true ->
     rewrite body = OK out ->
     map (resolve names uses) (ol dcl [] out) = map (resolve names uses) (ol dcl [] body).
-Proof. intros dcl names uses body out Hs H. rewrite (rewrite_scope dcl body out Hs H). reflexivity. Qed.
+Proof. intros dcl names uses body out Hs H. rewrite (rewrite_scope dcl body out [] Hs H). reflexivity. Qed.
 Print Assumptions C03_same_resolution_partial.
+
+(* with declarations already in scope where the body stands (parameters and results of the generator function, the enclosing
+   function's locals for a generator literal): whatever atoms [env] are visible there, they stay visible to the same occurrences *)
+Theorem C03_static_scoping_any_outer_scope_partial :
+  forall (dcl : nat -> bool) (env : list nat) (body out : list stmt),
+    soks dcl (map (pass0 400) body) = true ->
+    rewrite body = OK out ->
+    ol dcl env out = ol dcl env body.
+Proof. intros dcl env body out. exact (rewrite_scope dcl body out env). Qed.
+Print Assumptions C03_static_scoping_any_outer_scope_partial.
 
 Theorem C03_pass2_scoping_partial :
   forall (dcl : nat -> bool) (fuel : nat) (body : list stmt) (r : blk),
     soks dcl body = true ->
     rw_stmts fuel body (mkBlock KDelay) = OK r ->
     ol dcl [] (bstmts r) = ol dcl [] body.
-Proof. exact pass2_scope. Qed.
+Proof. intros dcl fuel body r. exact (pass2_scope dcl fuel body r []). Qed.
 Print Assumptions C03_pass2_scoping_partial.
 
 (* pass0 and pass3 on their own, any input (also outside [soks]) *)
